@@ -230,6 +230,49 @@ def reader_exit_worker(analysis: Analysis, _spec) -> dict:
     return {"n": n, "bad": bad[:3]}
 
 
+def reconnect_cb_worker(analysis: Analysis, spec) -> dict:
+    """Evaluate the reconnect callback a transport class registers with its protocol object, for a transport
+    with no connect task and for one that still holds an earlier (finished or pending) task."""
+    from ..values import BoundV, ExtObj, FuncV, Obj
+
+    flavour, cq = spec
+    ctx = analysis.context(analysis.versions[-1], "serial", flavour)
+    it = analysis.new_interp(ctx)
+    st, gw = analysis.gateway_state(it)
+    tr = Sym(("root", "TR"), ("cls", cq))
+    connect = Unknown("callable", label="connect")
+    rows = []
+    registered = 0
+    for kind, s, v in analysis.run_root(it, cq + ".__init__", [gw, connect], tr, st):
+        if kind != "val":
+            continue
+        proto = s.mem.get((tr.key(), "a", "protocol"))
+        cb = s.mem.get((proto.key(), "a", "conn_lost_callback")) if isinstance(proto, Obj) else None
+        if not isinstance(cb, (FuncV, BoundV)):
+            continue
+        registered += 1
+        for held, task in (("no earlier connect task", Const(None)), ("an earlier connect task is still stored", Unknown("task", label="earlier connect task"))):
+            s2 = s.copy()
+            s2.mem[(tr.key(), "a", "connect_task")] = task
+            n0 = len(s2.events)
+            for out in it.call(s2, cb, [], {}, cb.info.node):
+                k2, s3, v3 = out
+                evs = s3.events[n0:]
+                started = False
+                for e in evs:
+                    if e.kind == "spawn" and e.args and isinstance(e.args[0], FutureV):
+                        fn = e.args[0].fn
+                        if (isinstance(fn, BoundV) and fn.recv.key() == tr.key() and fn.info.qual.endswith(".connect")) or fn.key() == connect.key():
+                            started = True
+                    if e.kind == "call" and e.name == "threading.Thread.start" and isinstance(e.recv, ExtObj):
+                        tgt = e.recv.kwargs.get("target") or (e.recv.args[1] if len(e.recv.args) > 1 else None)
+                        if tgt is not None and (tgt.key() == connect.key() or (isinstance(tgt, BoundV) and tgt.recv.key() == tr.key())):
+                            started = True
+                rows.append({"held": held, "kind": k2, "exc": f"{v3.cls.__name__} at {v3.site}" if k2 == "raise" else None, "started": started, "callback": cb.info.qual, "witness": describe_path(out, 14)})
+    analysis.interp_steps += it.steps
+    return {"cls": cq, "flavour": flavour, "registered": registered, "rows": rows}
+
+
 def watchdog_structure(analysis: Analysis, res: RuleResult) -> None:
     """R5: structure of the TCP watchdog (which timer, which factor, which side of the comparison).
 
@@ -413,6 +456,22 @@ def run(analysis: Analysis, tier: str) -> RuleResult:
     from .c14 import pump_stops
 
     pump_stops(analysis, res, "C20-R3")
+    from . import c16
+
+    class _L:
+        extra = res.extra
+
+        @staticmethod
+        def add(rule, *a, **kw):
+            res.add("C20-L:" + rule, *a, **kw)
+
+    c16.send_discipline(analysis, _L)
+    for summ in common.pmap(analysis, reconnect_cb_worker, [("sync", "transport:SyncTransport"), ("async", "transport:AsyncTransport")]):
+        if not summ["rows"]:
+            raise AnalysisError(f"C20-R2: no reconnect callback found on {summ['cls']}.protocol after __init__")
+        for r in summ["rows"]:
+            ok = r["kind"] == "val" and r["started"]
+            res.add("C20-R2", f"{r['callback']} / the reconnect callback starts a connect attempt ({r['held']})", ok, "mysensors/transport.py", "a connect thread / task for this transport's connect is started" if ok else ("the callback raises " + r["exc"] if r["kind"] == "raise" else "the callback returns without starting a connect attempt: the loss is not followed by a reconnect"), r["witness"] if not ok else None, context=summ["flavour"])
     watchdog_structure(analysis, res)
     rx = common.pmap(analysis, reader_exit_worker, ["x"])[0]
     res.add("C20-R2", "gateway_tcp:TCPTransport.run / a link that ends without stop() is reported with an error (so that it is re-dialled)", rx["n"] > 0 and not rx["bad"], "mysensors/gateway_tcp.py", f"{rx['n']} loop exits: connection_lost(None) only after the run flag was cleared" if not rx["bad"] else rx["bad"][0][0], rx["bad"][0][1] if rx["bad"] else None)
